@@ -1053,6 +1053,8 @@ func judge(c Case) {
 		runRefuse(c)
 	case "wire":
 		runWire(c)
+	case "failedwrite":
+		failedWriteFamily()
 	case "wirefix":
 		runWireFix(c)
 	case "zero":
@@ -1140,6 +1142,7 @@ func main() {
 	if skipped > 0 {
 		rep.Cap("deadline reached: %d of %d (b,n) product/constructor/wire tasks not executed (order: n=4096, 256, then 130 down to 0, b from 32 down)", skipped, len(tasks))
 	}
+	failedWriteFamily()
 	// (x) every raw long count: the (b,n) menu above reaches long counts 0..65, 128, 256, ... only; a wire routine
 	// working in blocks of k longs has its boundary at multiples of k, whatever k is. For three widths, every
 	// count of raw longs 0..600, with the last long full and with one value missing from it: constructor and wire.
